@@ -16,7 +16,7 @@ TEX = "timeline.TimelineTex"
 class Pipe:
     """One symbolic run of Timeline.compute() for `n` items in one configuration."""
 
-    def __init__(self, ctx, backend, direction, n=2, show_border=False, show_ticks=True, tick_cross=False, chain=False):
+    def __init__(self, ctx, backend, direction, n=2, show_border=False, show_ticks=True, tick_cross=False, chain=False, textless=()):
         P = ctx.P
         self.ctx, self.P = ctx, P
         self.backend = backend
@@ -61,9 +61,12 @@ class Pipe:
             it = Opaque("ITEM%d" % i, kind="obj")
             st.heap[(it.text, "width")] = Num.atom("iw%d" % i)
             st.heap[(it.text, "height")] = Num.atom("ih%d" % i)
-            st.heap[(it.text, "text")] = Opaque("TEXT%d" % i, kind="str")
+            if i in textless:
+                st.heap[(it.text, "text")] = NONE  # a datum without a label text
+            else:
+                st.heap[(it.text, "text")] = Opaque("TEXT%d" % i, kind="str")
+                ev.assume("truth(TEXT%d)" % i, True)
             st.heap[(it.text, "data")] = Opaque("DATUM%d" % i, kind="obj")
-            ev.assume("truth(TEXT%d)" % i, True)
             items.append(it)
         self.items = items
         st.heap[("self", "items")] = Seq("list", items)
